@@ -132,8 +132,7 @@ def tlc(module, cfg, metadir, workers=None, timeout=900, env=None, simulate=None
     """Run TLC on /verif/spec/<module>.tla with /verif/spec/<cfg>.  Returns a dict."""
     os.makedirs(metadir, exist_ok=True)
     jopts = ["-XX:+UseParallelGC", "-Xss64m", "-DTLA-Library=" + SPEC]
-    if heap:
-        jopts.append("-Xmx" + heap)
+    jopts.append("-Xmx" + (heap or os.environ.get("VERIF_TLC_HEAP", "6g")))
     if dfs:
         jopts.append("-Dtlc2.tool.queue.IStateQueue=StateDeque")
     cmd = ["java"] + jopts + ["-cp", TLA_CP, "tlc2.TLC", "-noGenerateSpecTE", "-metadir", metadir,
